@@ -76,7 +76,7 @@ def gen_history(rng, steps, ndisp, nthreads, flavour):
             if len(scopes[t]) >= 4:
                 continue
             out.append({"ev": "wd_emit", "t": t, "d": rng.choice(held), "c": {"lvl": rng.randint(1, 5), "tgt": rng.choice(TGTS)},
-                        "k": rng.choice(["event", "event", "span"])})
+                        "k": rng.choice(["event", "event", "span"]), "how": rng.choice(["future", "future", "with_default", "tracing_with_default"])})
         elif op == "panic_scopes":
             out.append({"ev": "panic_scopes", "t": t, "ds": [rng.choice(held) for _ in range(rng.randint(1, 3))]})
         else:
